@@ -17,7 +17,7 @@ def check(run, args):
         run.tlc("JenOutput.tla", "chunks2_Output.cfg", overrides=dict(Chunks=2), workers=4)
     trace = os.path.join(run.scratch, "trace.ndjson")
     stats = os.path.join(run.scratch, "stats.json")
-    run.harness_run(["output", trace, stats, cf, "--variants", "4"])
+    run.harness_run(["output", trace, stats, cf, "--variants", "32" if thorough else "8"])
     os.remove(cf)
     st = json.load(open(stats))
     recs = run.validate_trace("Trace_Output.tla", "Trace_Output.cfg", trace_path=trace)
@@ -38,7 +38,7 @@ def check(run, args):
     run.evals += st["stats"].get("events", 0)
     run.distinct += st["stats"].get("placements_x_trees", 0)
     run.rule += ("every fault placement of JenOutput (entry point x valid/invalid x NoFormat x writer failing at call 1/2 x Save target kind), "
-                 "exported by TLC, each executed with 4 trees; distinct_nontrivial = distinct (placement, tree) pairs")
+                 "exported by TLC, each executed with 8 (thorough: 32) trees, half of them in Files that use every file-level feature (header / package comments, canonical path, cgo preamble, prefix, Anon, alias hint); distinct_nontrivial = distinct (placement, tree) pairs")
     run.samples += (st.get("samples") or [])
     run.exhaustive = True
     run.cov.setdefault("harness_stats", []).append(st["stats"])
